@@ -1442,16 +1442,16 @@ package gkvlite
 
 //@ func (*Collection).VisitItemsAscendEx$1
 //@   props C06
-//@   from: handed to visitNodes as its visitor, so it must satisfy the ItemVisitorEx contract: it delivers to the caller's visitor, or refuses (recording an error) when the item would be out of order
+//@   from: handed to visitNodes as its visitor, so it must satisfy the ItemVisitorEx contract: it delivers to the caller's visitor, or refuses (recording an error) when the item would be out of order; it keeps a COPY of the previous key, not the item (D15)
 //@   requires i != nil && locks == emptyLocks()
-//@   requires prevVisitItem != nil && t != nil && errCheckedVisitor != nil && visitor != nil && deref(t) != nil && deref(t).compare != nil && deref(t).store != nil && deref(visitor) != nil
-//@   modifies cell.Int, ghost vis.n, ghost vis.key, ghost vis.item, ghost vis.depth, ghost vis.hasval, ghost vis.stop
+//@   requires prevVisitKey != nil && havePrevVisitKey != nil && t != nil && errCheckedVisitor != nil && visitor != nil && deref(t) != nil && deref(t).compare != nil && deref(t).store != nil && deref(visitor) != nil
+//@   modifies cell.Int, cell.Bool, cell.Slice, content(deref(prevVisitKey)), new mem.byte, ghost vis.n, ghost vis.key, ghost vis.item, ghost vis.depth, ghost vis.hasval, ghost vis.stop
 //@   after fmt.Errorf.0 sets vis.stop := true
 //@   ensures logs-or-refuses: (vis.n == old(vis.n) + 1 && vis.key == upd(old(vis.key), old(vis.n), ikey(ia(i))) && vis.item == upd(old(vis.item), old(vis.n), ia(i)) && vis.hasval == upd(old(vis.hasval), old(vis.n), i.Val != nil) && vis.depth == upd(old(vis.depth), old(vis.n), depth)) || (!result && vis.n == old(vis.n) && vis.key == old(vis.key) && vis.item == old(vis.item) && vis.depth == old(vis.depth) && vis.hasval == old(vis.hasval))
 //@   ensures kept-going: result ==> vis.n == old(vis.n) + 1 && vis.stop == old(vis.stop)
 //@   ensures stopped: !result ==> vis.stop
 //@   tracks deref(errCheckedVisitor) != nil || vinv(deref(visitor), z)
-//@   captures cells-are-younger-than-the-inner-visitor: birth(prevVisitItem) >= birth(deref(visitor)) && birth(errCheckedVisitor) >= birth(deref(visitor)) && birth(visitor) >= birth(deref(visitor)) && birth(t) >= birth(deref(visitor)) && prevVisitItem != errCheckedVisitor && prevVisitItem != visitor && errCheckedVisitor != visitor && prevVisitItem != t && errCheckedVisitor != t
+//@   captures cells-are-younger-than-the-inner-visitor: birth(errCheckedVisitor) >= birth(deref(visitor)) && birth(visitor) >= birth(deref(visitor)) && birth(t) >= birth(deref(visitor)) && errCheckedVisitor != visitor && errCheckedVisitor != t && visitor != t
 //@   ensures [C16] visitor-invariant-kept: forall z {vinv(self, z)} {old(vinv(self, z))} :: old(vinv(self, z)) ==> vinv(self, z)
 
 //@ func (*Collection).VisitItemsAscend$1
